@@ -49,6 +49,10 @@ func DefaultOpFeatures(t *tape.Tape) OpFeatures {
 		Directives:      t.Bool(1, 4),
 		NullLiterals:    t.Bool(1, 4),
 		DupFields:       t.Bool(1, 6),
+		VarOmitted:      t.Bool(1, 3),
+		VarInInput:      t.Bool(1, 3),
+		VarStricter:     t.Bool(1, 3),
+		MultiOp:         t.Bool(1, 5),
 	}
 }
 
@@ -377,7 +381,7 @@ func (g *og) field(parent *ast.Definition, fd *ast.FieldDefinition, depth int, u
 		if g.f.AliasCollide && g.t.Bool(1, 2) {
 			// an alias that equals the name of some other field of the parent
 			o := parent.Fields[g.t.Choose(len(parent.Fields))]
-			if !strings.HasPrefix(o.Name, "__") && o.Name != fd.Name && !used[o.Name] {
+			if !strings.HasPrefix(o.Name, "__") && o.Name != fd.Name && o.Name != "id" && !used[o.Name] {
 				alias = o.Name
 				g.mark("alias-collide")
 			}
